@@ -6,6 +6,7 @@ import MocModel.Drv.Cache
 import MocModel.Drv.Handlers
 import MocModel.Drv.Conc
 import MocModel.Drv.Codec
+import MocModel.Drv.Auth
 open Moc.Drv
 
 def handlers : List (String × Handler) := [
@@ -17,7 +18,8 @@ def handlers : List (String × Handler) := [
   ("cache", CacheD.handler),
   ("C16", HandlersD.handler),
   ("C15", ConcD.handler),
-  ("codec", CodecD.handler)
+  ("codec", CodecD.handler),
+  ("C01", AuthD.handler)
 ]
 
 def main (args : List String) : IO UInt32 := do
